@@ -9,18 +9,21 @@ import tempfile
 from lib import tlc
 from lib.evidence import Report
 
-KINDS = ['sdc', 'mssdc', 'errest', 'logs', 'etol', 'getdef', 'mlsdc', 'pfasst']
-FAM = {'sdc': 'test', 'mssdc': 'test', 'errest': 'test', 'logs': 'test', 'etol': 'test', 'getdef': 'test', 'mlsdc': 'heat', 'pfasst': 'heat'}
+KINDS = ['sdc', 'mssdc', 'errest', 'logs', 'etol', 'getdef', 'mlsdc', 'pfasst', 'adapt', 'adaptres']
+ONESHOT = ['adapt', 'adaptres']  # step-size control: reproducible on a fresh controller (the property does not promise more)
+FAM = {'sdc': 'test', 'mssdc': 'test', 'errest': 'test', 'logs': 'test', 'etol': 'test', 'getdef': 'test', 'mlsdc': 'heat', 'pfasst': 'heat',
+       'adapt': 'vdp', 'adaptres': 'vdp'}
 
 
 def enumerate_histories(wd, maxops, simulate=None, seed=0):
     os.makedirs(wd, exist_ok=True)
     with open(os.path.join(wd, 'RE.tla'), 'w') as f:
-        f.write('---- MODULE RE ----\nEXTENDS Reentrancy\nmc_FAMILY == [k \\in {%s} |-> IF k \\in {"mlsdc", "pfasst"} THEN "heat" ELSE "test"]\n====\n'
+        f.write('---- MODULE RE ----\nEXTENDS Reentrancy\nmc_FAMILY == [k \\in {%s} |-> IF k \\in {"mlsdc", "pfasst"} THEN "heat" ELSE IF k \\in {"adapt", "adaptres"} THEN "vdp" ELSE "test"]\n====\n'
                 % ', '.join(f'"{k}"' for k in KINDS))
     cfg = os.path.join(wd, 'RE.cfg')
     tlc.write_cfg(cfg, spec='Spec', constants=dict(KINDS='{' + ', '.join(f'"{k}"' for k in KINDS) + '}', FAMILY=('<-', 'mc_FAMILY'),
-                                                   POINTS='{0, 6, 12}', NCTRL='2', MAXOPS=str(maxops)),
+                                                   POINTS='{0, 6, 12}', NCTRL='2', MAXOPS=str(maxops),
+                                                   ONESHOT='{' + ', '.join(f'"{k}"' for k in ONESHOT) + '}'),
                   invariants=['Composable', 'Export'], check_deadlock=False)
     return tlc.run_tlc('RE', cfg, workers=8, timeout=1200, spec_dir=wd, library=tlc.SPEC_DIR, simulate=simulate,
                        depth=maxops + 1 if simulate else None, seed=seed if simulate else None, heap='6g')
